@@ -147,6 +147,7 @@ type flowAnalysis struct {
 	recursed   []string
 	abortRet   func(*ssa.Return) bool
 	maxDepth   int
+	optAlias   map[*types.Var]string // bool fields that only ever hold a copy of one option's value
 }
 
 func newFlow(p *Program) *flowAnalysis {
@@ -563,7 +564,62 @@ func (it *flowAnalysis) context(fn *ssa.Function, key string, depth int) *fctx {
 }
 
 // optLabel: v is the bool loaded through a *bool field of the option struct.
+// optAliases: bool fields of package trie's structs all of whose stores, anywhere in the package,
+// store exactly the value of one and the same option (a builder that reads the flags once into plain
+// bools: c.leafPrefix = *opt.LeafPrefix). A branch on such a field is a branch on that option.
+func (it *flowAnalysis) optAliases() map[*types.Var]string {
+	if it.optAlias != nil {
+		return it.optAlias
+	}
+	it.optAlias = map[*types.Var]string{}
+	conflict := map[*types.Var]bool{}
+	for _, f := range it.p.FuncsOf(triePath) {
+		instrsOf(f, func(_ *ssa.BasicBlock, in ssa.Instruction) {
+			st, ok := in.(*ssa.Store)
+			if !ok || !isBoolType(st.Val.Type()) {
+				return
+			}
+			_, fv, fa := fieldOfAddr(st.Addr)
+			if fa == nil {
+				return
+			}
+			if pt, ok := fa.X.Type().Underlying().(*types.Pointer); ok && it.optType != nil && types.Identical(pt.Elem(), it.optType) {
+				return // the option struct itself
+			}
+			name, isOpt := it.optLabelDirect(st.Val)
+			if !isOpt {
+				conflict[fv] = true
+				return
+			}
+			if old, ok := it.optAlias[fv]; ok && old != name {
+				conflict[fv] = true
+				return
+			}
+			it.optAlias[fv] = name
+		})
+	}
+	for v := range conflict {
+		delete(it.optAlias, v)
+	}
+	return it.optAlias
+}
+
 func (it *flowAnalysis) optLabel(v ssa.Value) (string, bool) {
+	if name, ok := it.optLabelDirect(v); ok {
+		return name, true
+	}
+	// a load of a field that only ever holds a copy of one option
+	if ld, ok := deref(v); ok {
+		if _, fv, fa := fieldOfAddr(ld); fa != nil && isBoolType(fv.Type()) {
+			if name, ok := it.optAliases()[fv]; ok {
+				return name, true
+			}
+		}
+	}
+	return "", false
+}
+
+func (it *flowAnalysis) optLabelDirect(v ssa.Value) (string, bool) {
 	x, ok := deref(v)
 	if !ok {
 		return "", false
